@@ -17,7 +17,7 @@ Print Assumptions C07_record_step_keeps_invariant.
 
 Theorem C07_invariant_means_same_reads : forall cf hf K b0 st src R,
   GI cf hf K b0 st src R -> forall k, In k K -> abs hf (gc_b st) k = abs hf b0 k.
-Proof. intros cf hf K b0 st src R H. apply H. Qed.
+Proof. exact gi_same_reads. Qed.
 Print Assumptions C07_invariant_means_same_reads.
 
 (* (2) ACROSS A KILL the property is REFUTED for the code as it stands (known finding F4): GC rewrites the first
